@@ -26,18 +26,43 @@ func checkC15(c *Ctx, e *Env) {
 	fns := m.subjectFns(false)
 	var encoders []*ssa.Function
 	var parser *ssa.Function
+	// encoder = a method of a message type that reaches base58.CheckEncode through its own body,
+	// closures or plain helper functions (not through other methods: a dispatcher such as
+	// ContentHash.ToIRI only forwards); parser = the exported function reaching CheckDecode likewise.
+	reaches := func(fn *ssa.Function, what string) bool {
+		seen := map[*ssa.Function]bool{fn: true}
+		work := []*ssa.Function{fn}
+		for len(work) > 0 {
+			f := work[0]
+			work = work[1:]
+			for _, af := range f.AnonFuncs {
+				if !seen[af] {
+					seen[af] = true
+					work = append(work, af)
+				}
+			}
+			for _, ci := range callsIn(f) {
+				pkg, name := calleePkgName(ci.Common())
+				if strings.HasSuffix(pkg, "base58") && name == what {
+					return true
+				}
+				if sc := ci.Common().StaticCallee(); sc != nil && !seen[sc] && sc.Signature.Recv() == nil && fnPkgPath(sc) == fnPkgPath(fn) && len(sc.Blocks) > 0 {
+					seen[sc] = true
+					work = append(work, sc)
+				}
+			}
+		}
+		return false
+	}
 	for _, fn := range fns {
-		if isCanaryFn(fn) {
+		if isCanaryFn(fn) || fn.Parent() != nil {
 			continue
 		}
-		for _, ci := range callsIn(fn) {
-			pkg, name := calleePkgName(ci.Common())
-			if strings.HasSuffix(pkg, "base58") && name == "CheckEncode" {
-				encoders = append(encoders, fn)
-			}
-			if strings.HasSuffix(pkg, "base58") && name == "CheckDecode" {
-				parser = fn
-			}
+		if fn.Signature.Recv() != nil && reaches(fn, "CheckEncode") {
+			encoders = append(encoders, fn)
+		}
+		if fn.Signature.Recv() == nil && fn.Object() != nil && fn.Object().Exported() && reaches(fn, "CheckDecode") {
+			parser = fn
 		}
 	}
 	c.Count("encoders", len(encoders))
@@ -46,10 +71,10 @@ func checkC15(c *Ctx, e *Env) {
 		c.Undecide("C15.CODEC", "parser", "-", "no function calling base58.CheckDecode found")
 		return
 	}
-	dec := extractDecoder(c, p, parser)
+	dec := decoderSummary(c, p, parser)
 	encByPrefix := map[int64]*encLayout{}
 	for _, fn := range encoders {
-		lay := extractEncoder(c, p, fn)
+		lay := encoderSummary(c, p, fn)
 		if lay == nil {
 			continue
 		}
